@@ -46,5 +46,6 @@ broadcast use axiom_strb_utf8, axiom_sbytes_utf8, axiom_seal_len, axiom_open_uni
 //@include ../parts/config.rs
 //@include ../parts/keys.rs
 //@include ../parts/ssassoc.rs
+//@include ../parts/clientmain.rs
 } // verus!
 fn main() {}
